@@ -20,8 +20,8 @@ type fileHandler struct {
 
 func (h *fileHandler) Authenticate(ctx context.Context, mqtt ApplicationContext, transport TransportContext) (Principal, error) {
 	usernameHash := fingerprintBytes(mqtt.Username)
-	idx := sort.Search(len(h.db), func(i int) bool { return h.db[i].UsernameHash == usernameHash })
-	if idx < len(h.db) && h.db[idx].UsernameHash == usernameHash {
+	idx := sort.Search(len(h.db), func(i int) bool { return h.db[i].UsernameHash >= usernameHash })
+	for ; idx < len(h.db) && h.db[idx].UsernameHash == usernameHash; idx++ {
 		if h.db[idx].PasswordHash == fingerprintBytes(mqtt.Password) {
 			return Principal{
 				ID:         randomID(),
@@ -49,6 +49,7 @@ func FileHandler(path string) (AuthenticationHandler, error) {
 	defer fd.Close()
 	reader := csv.NewReader(fd)
 	reader.Comma = ':'
+	reader.FieldsPerRecord = -1
 	records, err := reader.ReadAll()
 	if err != nil {
 		return nil, err
@@ -63,10 +64,14 @@ func FileHandler(path string) (AuthenticationHandler, error) {
 				MountPoint:   DefaultMountPoint,
 			})
 		case 3:
+			mountPoint := records[idx][2]
+			if mountPoint == "" {
+				mountPoint = DefaultMountPoint
+			}
 			out = append(out, fileRecord{
 				UsernameHash: fingerprintString(records[idx][0]),
 				PasswordHash: records[idx][1],
-				MountPoint:   records[idx][3],
+				MountPoint:   mountPoint,
 			})
 		}
 	}
